@@ -20,9 +20,12 @@ def check_spelleq(run, vecs):
             run.mismatch("C14 respelling %s" % common.crash_sig(o), v, "did not terminate normally: " + o["st"], observed={"src": src})
             continue
         ob = o["obs"]
-        if not ob["canon"]["parse_ok"]:
-            raise common.Infra("canonical snippet does not parse: %r: %s" % (common.show(bytes(v["canon"])), ob["canon"].get("err")))
         why = None
+        if not ob["canon"]["parse_ok"]:
+            # every snippet is a valid construct in its canonical spelling
+            run.mismatch("C14 canonical spelling does not parse [snippet %s]" % v.get("snip"), v, "a valid construct does not parse",
+                         expected="a tree", observed={"src": common.show(bytes(v["canon"])), "err": ob["canon"].get("err")})
+            continue
         if ob.get("hooks") and not ob["tokens_equal"]:
             why = "token sequence changes"
         elif not ob["spelled"]["parse_ok"]:
